@@ -35,6 +35,12 @@ def check(run):
         run.guard("C18.2.gate-provenance", cfg + "/merge", lambda: rule_mask_merge(run, F, cfg))
         run.guard("C18.4.escape-table", cfg, lambda: rule_escape(run, F, cfg))
         run.guard("C18.5.invocation", cfg, lambda: rule_invocation(run, F, cfg))
+        from analysis import a7 as _a7
+        from . import a7_common as _a7c
+        run.guard("C18.6.argument-splitting", cfg, lambda: _a7.check_cone(
+            run, "C18.6.argument-splitting", F, cfg, ["resources::resource_storage::parse_scriptlet_args"], _a7c.rows(),
+            _a7c.ALL_BASES if hasattr(_a7c, "ALL_BASES") else _a7c.NO_PARSE_INVARIANT, floor=8,
+            label="+js(...) argument splitting (every slice offset is a reviewed one)"))
         b = run.borrow("C16", only=r"inject_script", why="scriptlet exceptions are applied after all injections are collected")
         run.guard("C18.via.C16.3.populate-before-prune", cfg, lambda: _C16.rule_order(b, F, cfg))
         run.guard("C18.via.C16.8.independent-injections", cfg, lambda: _C16.rule_independent_injections(run.borrow("C16", why="a scriptlet another list may not use must not suppress the others"), F, cfg))
